@@ -408,11 +408,20 @@ def r21_for_rev(src, item, ed, opts):
         ex = src.text(*n["expr"]).strip()
         m = re.fullmatch(r"(.+)\.iter\(\)\s*\.rev\(\)", ex, re.S)
         if not m:
+            mf = re.fullmatch(r"(.+)\.iter\(\)", ex, re.S)
+            if mf and sp.get("or_forward"):
+                # the same loop without `.rev()`: ascending index (so that a lost `.rev()` is judged, not refused)
+                v = sp.get("v") or mf.group(1).strip()
+                k = sp.get("k", "vx_idx")
+                pat = src.text(*n["pat"])
+                ed.replace(n["range"][0], n["body"][0], f"let mut {k}: usize = 0; while {k} < {v}.len() ", "R21")
+                ed.insert(n["body"][0] + 1, f" let {pat} = &{v}[{k}]; {k} += 1; ", "R21", prio=-5)
+                ed.count("R21")
+                continue
             raise Unsupported(f"R21 expects `V.iter().rev()`, found `{ex}`")
-        v = m.group(1).strip()
-        for mm in item["nodes"]:
-            if mm["kind"] in ("break", "continue") and inside(mm, n["body"]):
-                raise Unsupported("R21: loop body contains break/continue")
+        # `v`: the sidecar may name a shim for the vector expression (e.g. an index into an opaque map);
+        # the index is decremented FIRST, so `break` / `continue` in the body keep their meaning
+        v = sp.get("v") or m.group(1).strip()
         k = sp.get("k", "vx_idx")
         pat = src.text(*n["pat"])
         ed.replace(n["range"][0], n["body"][0], f"let mut {k}: usize = {v}.len(); while {k} > 0 ", "R21")
@@ -513,12 +522,22 @@ def r30_for_map(src, item, ed, opts):
         if n is None or n["loop_kind"] != "for":
             raise LostAnchor(f"for-loop #{sp['n']} of {item['path']}")
         ex = src.text(*n["expr"]).strip()
-        if not ex.startswith("&"):
-            raise Unsupported(f"R30 expects `for (k, v) in &M`, found `{ex}`")
-        m = ex[1:].strip()
         k = sp.get("k", "vx_j")
         es = sp.get("es", "vx_es")
         pat = src.text(*n["pat"])
+        if not ex.startswith("&"):
+            # by value: the map is consumed; its entries come out each exactly once in an unspecified
+            # order, so taking them from the back of the entry vector is as good as any other order
+            if not sp.get("by_value") or not re.fullmatch(r"[A-Za-z_]\w*", ex):
+                raise Unsupported(f"R30 expects `for (k, v) in &M` (or by_value with a plain variable), found `{ex}`")
+            for mm in item["nodes"]:
+                if mm["kind"] in ("break", "continue") and inside(mm, n["body"]):
+                    raise Unsupported("R30 by value: loop body contains break/continue")
+            ed.replace(n["range"][0], n["body"][0], f"let mut {es} = {sp.get('entries', 'vx_map_into_entries')}({ex}); {sp.get('ghost_after_let', '')} while {es}.len() > 0 ", "R30")
+            ed.insert(n["body"][0] + 1, f" {sp.get('ghost', '')} let {pat} = {es}.pop().unwrap(); ", "R30", prio=-5)
+            ed.count("R30")
+            continue
+        m = ex[1:].strip()
         ed.replace(n["range"][0], n["body"][0], f"let {es} = {sp.get('entries', 'vx_map_entries')}(&{m}); let mut {k}: usize = 0; while {k} < {es}.len() ", "R30")
         ed.insert(n["body"][0] + 1, f" let {pat} = {es}[{k}]; {k} += 1; ", "R30", prio=-5)
         ed.count("R30")
@@ -535,7 +554,7 @@ def r32_for_into_iter_rev(src, item, ed, opts):
         if n is None or n["loop_kind"] != "for":
             raise LostAnchor(f"for-loop #{sp['n']} of {item['path']}")
         ex = src.text(*n["expr"]).strip()
-        m = re.fullmatch(r"([A-Za-z_][\w\.]*)\.into_iter\(\)\s*(\.rev\(\))?", ex, re.S)
+        m = re.fullmatch(r"([A-Za-z_][\w\.]*)(?:\.into_iter\(\))?\s*(\.rev\(\))?", ex, re.S)
         if not m:
             raise Unsupported(f"R32 expects `V.into_iter()[.rev()]`, found `{ex}`")
         v = m.group(1)
@@ -576,6 +595,9 @@ def r24_call_shim(src, item, ed, opts):
         kind = sp["kind"]
         if kind == "methodcall":
             c = [n for n in nodes_of(item, "methodcall") if n["method"] == sp["method"] and (sp.get("recv_contains") is None or sp["recv_contains"].replace(" ", "") in n["receiver_text"])]
+            if sp.get("arg0_matches") is not None:
+                # select by the text of the first argument (a regex over its whitespace-free text), never by position
+                c = [n for n in c if n["args"] and re.fullmatch(sp["arg0_matches"], re.sub(r"\s+", "", src.text(*n["args"][0]["range"])), re.S)]
         elif kind == "call":
             c = [n for n in nodes_of(item, "call") if n["func"] == sp["func"]]
         elif kind == "macro":
@@ -614,6 +636,13 @@ def r24_call_shim(src, item, ed, opts):
                 env["recv"] = src.text(*n["receiver"])
                 for j, a in enumerate(n["args"]):
                     env[f"arg{j}"] = src.text(*a["range"])
+                # a receiver that is itself a method call (`a.entry(k).or_insert(v)`): its parts by name
+                for rn in nodes_of(item, "methodcall"):
+                    if list(rn["range"]) == list(n["receiver"]):
+                        env["recv_recv"] = src.text(*rn["receiver"])
+                        env["recv_method"] = rn["method"]
+                        for j, a in enumerate(rn["args"]):
+                            env[f"recv_arg{j}"] = src.text(*a["range"])
             elif kind == "call":
                 for j, a in enumerate(n["args"]):
                     env[f"arg{j}"] = src.text(*a["range"])
@@ -763,6 +792,100 @@ def clause(kw, text):
     return f"\n    {kw}\n        {text},"
 
 
+def apply_at_anchors(src, item, ed, spec):
+    """ghost hints before/after the k-th return / continue / break / call / let ... of `item` (within its scope)"""
+    for at in spec.get("at", []):
+        kind, _, ordn = at["anchor"].partition(":")
+        sel = at.get("select")
+        if kind in ("return", "continue", "break"):
+            c = nodes_of(item, kind)
+        elif kind == "call":
+            c = [n for n in nodes_of(item, "call") if n["func"] == sel]
+        elif kind == "methodcall":
+            c = [n for n in nodes_of(item, "methodcall") if n["method"] == sel and (at.get("recv") is None or n["receiver_text"] == at["recv"].replace(" ", ""))]
+        elif kind == "binary":
+            c = [n for n in nodes_of(item, "binary") if n["op"] == sel]
+        elif kind == "let":
+            c = [n for n in nodes_of(item, "let") if n["pat_text"] == sel]
+        elif kind == "assign":
+            c = [n for n in nodes_of(item, "assign") if n["left_text"] == sel]
+        elif kind == "if":
+            c = [n for n in nodes_of(item, "if") if sel is None or sel.replace(" ", "") in src.text(*n["cond"]).replace(" ", "").replace("\n", "")]
+        elif kind == "match":
+            c = nodes_of(item, "match")
+        elif kind == "arm":
+            c = [n for n in nodes_of(item, "arm") if sel is None or n["pat_text"] == sel.replace(" ", "")]
+        elif kind == "tail":
+            # before the function's tail expression (its last top-level statement)
+            if not item.get("stmts"):
+                raise LostAnchor(f"tail expression of {spec['path']}")
+            ed.insert(item["stmts"][-1][0], at["text"].strip() + "\n", "ghost")
+            continue
+        else:
+            raise Unsupported(f"anchor kind {kind}")
+        k = int(ordn or 0)
+        if k >= len(c):
+            raise LostAnchor(f"anchor {at['anchor']} {sel or ''} of {spec['path']}")
+        n = c[k]
+        pos_kind = at.get("pos", "before")
+        txt = at["text"].strip()
+        if kind == "arm":
+            # hint at the start of the arm body
+            if n["body_is_block"]:
+                ed.insert(n["body"][0] + 1, "\n" + txt + "\n", "ghost")
+            else:
+                ed.insert(n["body"][0], "{ " + txt + " ", "ghost")
+                ed.insert(n["body"][1], " }", "ghost")
+            continue
+        if kind in ("if", "match") and pos_kind == "then_start":
+            ed.insert(n["then"][0] + 1, "\n" + txt + "\n", "ghost")
+            continue
+        if kind == "if" and pos_kind == "then_end":
+            ed.insert(n["then"][1] - 1, "\n" + txt + "\n", "ghost")
+            continue
+        if kind == "if" and pos_kind == "else_end":
+            if "else" not in n or src.data[n["else"][1] - 1:n["else"][1]] != b"}":
+                raise LostAnchor(f"else block of if `{sel}` in {spec['path']}")
+            ed.insert(n["else"][1] - 1, "\n" + txt + "\n", "ghost")
+            continue
+        if kind == "if" and pos_kind == "else_start":
+            if "else" not in n or src.data[n["else"][0]:n["else"][0] + 1] != b"{":
+                raise LostAnchor(f"else block of if `{sel}` in {spec['path']}")
+            ed.insert(n["else"][0] + 1, "\n" + txt + "\n", "ghost")
+            continue
+        # statement-level position: walk up to the enclosing statement-like node
+        target = n
+        if kind in ("call", "methodcall"):
+            stmt = None
+            for an in ancestors(item, n):
+                if an["kind"] in ("let", "assign"):
+                    stmt = an
+                    break
+                if an["kind"] == "try" and an["inner"][1] <= an["range"][1] and an["range"][0] <= n["range"][0]:
+                    stmt = an  # `call(..)?` used as a statement: keep climbing for a let/assign
+                    continue
+                if an["kind"] in ("block", "loop", "arm", "closure", "if", "match"):
+                    break
+            if stmt is not None:
+                target = stmt
+        par = item["nodes"][target["parent"]] if target["parent"] >= 0 else None
+        if par is not None and par["kind"] == "arm" and not par["body_is_block"] and par["body"] == target["range"]:
+            if pos_kind == "before":
+                ed.insert(target["range"][0], "{ " + txt + " ", "ghost")
+                ed.insert(target["range"][1], " }", "ghost")
+            else:
+                raise Unsupported("after-anchor on a bare arm body")
+        elif pos_kind == "before":
+            ed.insert(target["range"][0], txt + "\n", "ghost")
+        else:
+            # after: past the statement's semicolon if there is one
+            e = target["range"][1]
+            if src.data[e:e + 1] == b";":
+                e += 1
+            ed.insert(e, "\n" + txt + "\n", "ghost")
+
+
+
 def extract_fn(src, spec, unit_rules):
     """returns dict(text=..., name=..., counts=..., src_range=..., hash=...)"""
     item = src.find("fn", spec["path"])
@@ -877,90 +1000,7 @@ def extract_fn(src, spec, unit_rules):
         if c:
             ed.insert(n["body"][0], c + "\n", "ghost")
 
-    # hints before the k-th return / continue / break / call / let
-    for at in spec.get("at", []):
-        kind, _, ordn = at["anchor"].partition(":")
-        sel = at.get("select")
-        if kind in ("return", "continue", "break"):
-            c = nodes_of(item, kind)
-        elif kind == "call":
-            c = [n for n in nodes_of(item, "call") if n["func"] == sel]
-        elif kind == "methodcall":
-            c = [n for n in nodes_of(item, "methodcall") if n["method"] == sel and (at.get("recv") is None or n["receiver_text"] == at["recv"].replace(" ", ""))]
-        elif kind == "binary":
-            c = [n for n in nodes_of(item, "binary") if n["op"] == sel]
-        elif kind == "let":
-            c = [n for n in nodes_of(item, "let") if n["pat_text"] == sel]
-        elif kind == "assign":
-            c = [n for n in nodes_of(item, "assign") if n["left_text"] == sel]
-        elif kind == "if":
-            c = [n for n in nodes_of(item, "if") if sel is None or sel.replace(" ", "") in src.text(*n["cond"]).replace(" ", "").replace("\n", "")]
-        elif kind == "match":
-            c = nodes_of(item, "match")
-        elif kind == "arm":
-            c = [n for n in nodes_of(item, "arm") if sel is None or n["pat_text"] == sel.replace(" ", "")]
-        else:
-            raise Unsupported(f"anchor kind {kind}")
-        k = int(ordn or 0)
-        if k >= len(c):
-            raise LostAnchor(f"anchor {at['anchor']} {sel or ''} of {spec['path']}")
-        n = c[k]
-        pos_kind = at.get("pos", "before")
-        txt = at["text"].strip()
-        if kind == "arm":
-            # hint at the start of the arm body
-            if n["body_is_block"]:
-                ed.insert(n["body"][0] + 1, "\n" + txt + "\n", "ghost")
-            else:
-                ed.insert(n["body"][0], "{ " + txt + " ", "ghost")
-                ed.insert(n["body"][1], " }", "ghost")
-            continue
-        if kind in ("if", "match") and pos_kind == "then_start":
-            ed.insert(n["then"][0] + 1, "\n" + txt + "\n", "ghost")
-            continue
-        if kind == "if" and pos_kind == "then_end":
-            ed.insert(n["then"][1] - 1, "\n" + txt + "\n", "ghost")
-            continue
-        if kind == "if" and pos_kind == "else_end":
-            if "else" not in n or src.data[n["else"][1] - 1:n["else"][1]] != b"}":
-                raise LostAnchor(f"else block of if `{sel}` in {spec['path']}")
-            ed.insert(n["else"][1] - 1, "\n" + txt + "\n", "ghost")
-            continue
-        if kind == "if" and pos_kind == "else_start":
-            if "else" not in n or src.data[n["else"][0]:n["else"][0] + 1] != b"{":
-                raise LostAnchor(f"else block of if `{sel}` in {spec['path']}")
-            ed.insert(n["else"][0] + 1, "\n" + txt + "\n", "ghost")
-            continue
-        # statement-level position: walk up to the enclosing statement-like node
-        target = n
-        if kind in ("call", "methodcall"):
-            stmt = None
-            for an in ancestors(item, n):
-                if an["kind"] in ("let", "assign"):
-                    stmt = an
-                    break
-                if an["kind"] == "try" and an["inner"][1] <= an["range"][1] and an["range"][0] <= n["range"][0]:
-                    stmt = an  # `call(..)?` used as a statement: keep climbing for a let/assign
-                    continue
-                if an["kind"] in ("block", "loop", "arm", "closure", "if", "match"):
-                    break
-            if stmt is not None:
-                target = stmt
-        par = item["nodes"][target["parent"]] if target["parent"] >= 0 else None
-        if par is not None and par["kind"] == "arm" and not par["body_is_block"] and par["body"] == target["range"]:
-            if pos_kind == "before":
-                ed.insert(target["range"][0], "{ " + txt + " ", "ghost")
-                ed.insert(target["range"][1], " }", "ghost")
-            else:
-                raise Unsupported("after-anchor on a bare arm body")
-        elif pos_kind == "before":
-            ed.insert(target["range"][0], txt + "\n", "ghost")
-        else:
-            # after: past the statement's semicolon if there is one
-            e = target["range"][1]
-            if src.data[e:e + 1] == b";":
-                e += 1
-            ed.insert(e, "\n" + txt + "\n", "ghost")
+    apply_at_anchors(src, item, ed, spec)
 
     # R19: trait-impl method lifted to a free function
     free = spec.get("as_free")
@@ -1124,18 +1164,48 @@ def extract_closure(src, spec, unit_rules):
     (named in the sidecar; a missing or mistyped capture does not compile), and the call site becomes a
     call of that method (an `iife` shim in the enclosing function's entry)."""
     fn = src.find("fn", spec["path"])
-    calls = [n for n in fn["nodes"] if n["kind"] == "call" and (n["func"].startswith("(|") or n["func"].startswith("(move|"))]
     k = spec.get("n", 0)
-    if k >= len(calls):
-        raise LostAnchor(f"immediately-invoked closure #{k} of {spec['path']}")
-    call = calls[k]
-    clos = [n for n in fn["nodes"] if n["kind"] == "closure" and call["func_range"][0] <= n["range"][0] and n["range"][1] <= call["func_range"][1]]
-    if not clos or not clos[0]["body_is_block"]:
-        raise Unsupported("R31 expects a block-bodied closure")
-    cl = clos[0]
+    cl = None
+    if "region" in spec:
+        # R34 region extraction: a statement-level part of a long function (its k-th loop statement, or the
+        # then-block of the `if` whose condition mentions a text) becomes a function of the variables it
+        # uses (named and typed in the sidecar: a missing or mistyped one does not compile).  What the
+        # contract then says is about this part alone; how the parts are glued together is read, not proved.
+        rg = spec["region"]
+        if rg["kind"] == "loop":
+            top = [n for n in fn["nodes"] if n["kind"] == "loop"]
+            if rg.get("n", 0) >= len(top):
+                raise LostAnchor(f"loop #{rg.get('n', 0)} of {spec['path']}")
+            ln = top[rg.get("n", 0)]
+            body, is_block = list(ln["range"]), False
+        elif rg["kind"] == "if":
+            c = [n for n in fn["nodes"] if n["kind"] == "if" and rg["cond_contains"].replace(" ", "") in src.text(*n["cond"]).replace(" ", "").replace("\n", "")]
+            if len(c) <= rg.get("n", 0):
+                raise LostAnchor(f"if `{rg['cond_contains']}` of {spec['path']}")
+            body, is_block = list(c[rg.get("n", 0)]["then"]), True
+        else:
+            raise Unsupported(f"region kind {rg['kind']}")
+        cl = {"inputs": [], "body": body, "body_is_block": is_block}
+    elif "closure_n" in spec:
+        # the k-th closure of the function, wherever it stands (e.g. the argument of `iter::from_fn`): an
+        # FnMut closure run once per call with mutable access to what it captured
+        allc = [n for n in fn["nodes"] if n["kind"] == "closure"]
+        if spec["closure_n"] >= len(allc):
+            raise LostAnchor(f"closure #{spec['closure_n']} of {spec['path']}")
+        cl = allc[spec["closure_n"]]
+    else:
+        calls = [n for n in fn["nodes"] if n["kind"] == "call" and (n["func"].startswith("(|") or n["func"].startswith("(move|"))]
+        if k >= len(calls):
+            raise LostAnchor(f"immediately-invoked closure #{k} of {spec['path']}")
+        call = calls[k]
+        clos = [n for n in fn["nodes"] if n["kind"] == "closure" and call["func_range"][0] <= n["range"][0] and n["range"][1] <= call["func_range"][1]]
+        if not clos or not clos[0]["body_is_block"]:
+            raise Unsupported("R31 expects a block-bodied closure")
+        cl = clos[0]
     if cl["inputs"]:
         raise Unsupported("R31 expects a closure without parameters")
     body = cl["body"]
+    is_block = cl["body_is_block"]
     item = dict(fn)
     item["scope"] = tuple(body)
     for n in nodes_of(item):
@@ -1173,12 +1243,33 @@ def extract_closure(src, spec, unit_rules):
             ed.insert(n["body"][1] - 1, "\n" + ls["body_end"].strip() + "\n", "ghost")
         if ls.get("after"):
             ed.insert(n["range"][1], "\n" + ls["after"].strip() + "\n", "ghost")
-    ed.count("R31")
-    inner = ed.apply(src, body[0] + 1, body[1] - 1)
+    apply_at_anchors(src, item, ed, spec)
+    ed.count("R34" if "region" in spec else "R31")
+    if spec.get("control") == "flow":
+        # `return E` of the enclosing function, seen from inside the region: the region's result says so
+        for n in nodes_of(item, "return"):
+            if any(an["kind"] == "closure" and inside(an, body) for an in ancestors(item, n)):
+                continue
+            if "value" in n:
+                ed.insert(n["value"][0], "VxFlow::Return(", "R34")
+                ed.insert(n["value"][1], ")", "R34")
+            else:
+                ed.insert(n["range"][1], " VxFlow::Return(())", "R34")
+    inner = ed.apply(src, body[0] + 1, body[1] - 1) if is_block else ed.apply(src, body[0], body[1])
+    if spec.get("control") == "flow":
+        inner = inner.rstrip()
+        inner += ("" if inner.endswith(";") or inner.endswith("}") else ";") + "\nVxFlow::Next"
+    elif spec.get("tail"):
+        # the region falls through to the rest of the function: as a function it ends with this value
+        inner = inner.rstrip()
+        inner += ("" if inner.endswith(";") or inner.endswith("}") else ";") + "\n" + spec["tail"]
+    for v in spec.get("deref", []):
+        # a captured variable that the method receives as `&mut T`: every use becomes `(*v)`
+        inner = re.sub(r"(?<![\w\.])" + re.escape(v) + r"\b", f"(*{v})", inner)
     contract = clause("requires", spec.get("requires")) + clause("ensures", spec.get("ensures"))
     ret = spec.get("ret", "r")
     text = (
-        f"pub fn {spec['name']}({spec['params']}) -> ({ret}: {spec['ret_ty']})" + contract + "\n{\n"
+        f"pub fn {spec['name']}{spec.get('generics', '')}({spec['params']}) -> ({ret}: {spec['ret_ty']})" + contract + "\n{\n"
         + (spec.get("body_start", "").strip() + "\n" if spec.get("body_start") else "")
         + inner + "\n}\n"
     )
